@@ -38,7 +38,8 @@ PROPS = {
                 engines=[("opt", dict(focus="C08", quick=150, thorough=3000, coqeval_quick=4, coqeval_thorough=30)),
                          ("geom", dict(quick=[("C08", 1200)], thorough=[("C08", 40000)]))],
                 design="DESIGN.md section 4 C08", trusted=[FNS_TRUST],
-                assumptions=["no sampled value is NaN (premise of the binary64 range theorem; monitored on every recorded proposal)"]),
+                assumptions=["magnitudes of bounds and step size at most 2^300 (premise of the unconditional binary64 range theorem; "
+                             "every recorded proposal is monitored whatever the magnitudes)"]),
     "C02": dict(props_file="props/C02.v", engines=[("geom", dict(quick=[("C02", 8000), ("ORD", 1500)], thorough=[("C02", 400000), ("ORD", 60000)], coqeval_thorough=400))],
                 design="DESIGN.md section 4 C02", trusted=[FNS_TRUST]),
     "C03": dict(props_file="props/C03.v", engines=[("geom", dict(quick=[("C03", 8000)], thorough=[("C03", 400000)]))],
